@@ -204,7 +204,7 @@ def eager_programs(quick, op="query"):
 
 def _comb_cases(rng, quick):
     out = [{"comb": sc} for sc in sched_comb.families(rng, quick)]
-    for _ in range(150 if quick else 3000):
+    for _ in range(100 if quick else 3000):
         out.append({"comb": sched_comb.random_script(rng)})
     return out
 
